@@ -31,3 +31,10 @@ type D struct{}
 func (D) Area() float64               { return 1 }
 func (D) Name() string                { return "d" }
 func (*D) Read(p []byte) (int, error) { return 0, nil }
+
+// E carries two annotations that fail differently: both diagnostics sit on the type name.
+// @implements Shape
+// @implements nosuchpkg.Iface
+type E struct{}
+
+func (E) Name() string { return "e" }
